@@ -2,6 +2,7 @@
 import glob
 import json
 import os
+import sys
 
 rows = []
 for f in sorted(glob.glob('/verif/seeded/*/meta.json')):
@@ -12,7 +13,14 @@ for f in sorted(glob.glob('/verif/seeded/*/meta.json')):
     checks = m.get('checks', {})
     caught = ', '.join(f'{c}: {"caught" if v["caught"] else "MISSED (exit %s)" % v["exit"]}' for c, v in checks.items())
     keys = '; '.join(k.split(' count=')[0].replace('key=', '') for v in checks.values() for k in v.get('keys', [])[:2])
-    rows.append(f'| {sid} | {first} | {"yes" if m.get("confirmed") else "NO"} | {caught} | {keys[:140]} |')
-print('| seeded change | what it is | confirmed (suite green, demo fails) | quick tier | first keys |')
-print('|---|---|---|---|---|')
+    hist = m.get('history', [])
+    missed_before = bool(hist) if isinstance(hist, str) else any(
+        not v.get('caught') for h in hist for c, v in h['checks'].items()
+        if c == m['property'] or len(h['checks']) == 1)
+    if len(sys.argv) > 1 and str((m['n'] - 1) // 3 + 1) != sys.argv[1]:
+        continue
+    rows.append(f'| {sid} | {first} | {"yes" if m.get("confirmed") else "NO"} | {caught} | '
+                f'{"missed, check extended" if missed_before else "caught"} | {keys[:140]} |')
+print('| seeded change | what it is | confirmed (suite green, demo fails) | quick tier now | first version of the check | first keys |')
+print('|---|---|---|---|---|---|')
 print('\n'.join(rows))
